@@ -135,9 +135,9 @@ def conds(tier):
     out.append(core.dagsync_cond("dagsync", P))
     if not q:
         out.append(Cond("hist_fault2", mk_hist_fault(True),
-                        [I("s0", 8, fam.FAULT_MENU - 1), I("s1", 0, fam.FAULT_MENU - 1), I("g0", 0, 2), I("g1", 0, 2), I("t0", 8, fam.FAULT_MENU - 1), I("t1", 0, 7),
-                         I("h0", 0, 2), I("h1", 0, 2), I("v")], pin=3, budget=1800,
-                        family="F-HIST [faulty, faulty, canary]", encodes=core.ENC_SCHED))
+                        [I("s0", 8, fam.FAULT_MENU - 1), I("s1", 0, 3), I("g0", 0, 1), I("g1", 0, 1),
+                         I("t0", 8, fam.FAULT_MENU - 1), I("t1", 2, 2), I("h0", 0, 0), I("h1", 0, 1), I("v")], pin=2,
+                        budget=1800, family="F-HIST [faulty, faulty, canary]", encodes=core.ENC_SCHED))
         out.append(Cond("hist_ctx2", mk_hist_ctx(True),
                         [I("which", 0, 1), I("k", 0, 3), I("nest", 0, 2), I("gm", 0, 4), I("kk", 0, 1),
                          I("which2", 0, 1), I("k2", 0, 3), I("v")], pin=2, budget=900,
